@@ -139,6 +139,8 @@ def run_history(sim: Sim, fs: SimFS, save_mod) -> None:
     ctx = {"buffer": fs.buffer_size, "write_through": fs.write_through, "fanout": fanout}
     sim.config.update(ctx)
     n_saves = 2 + sim.choose(8, "n-saves")
+    if sim.flip(1, 8, "long-history"):
+        n_saves = 10 + sim.choose(12, "n-saves-many")
     if n_saves >= 5:
         sim.probe("history_5plus")
     for _ in range(n_saves):
